@@ -536,6 +536,9 @@ class CacheSim(object):
         if ev.get("form") == "struct":
             import time as _t
             expv = _t.gmtime(exp)
+        elif ev.get("form") == "zero":
+            expv = 0        # what the client stores for an assertion that carries no NotOnOrAfter at all
+            self.count("probe.set.zero-expiry-with-data")
         else:
             expv = exp
         info = {"ava": copy.deepcopy(ev["ava"]), "marker": ev["marker"]}
@@ -551,7 +554,7 @@ class CacheSim(object):
         """Population.add_information_about_person: what the client does on every accepted login."""
         t = self.subj(ev)
         src = ev["src"]
-        exp = self.now() + ev["off"]
+        exp = 0 if ev.get("form") == "zero" else self.now() + ev["off"]
         si = {"ava": copy.deepcopy(ev["ava"]), "name_id": mk_nid(t), "came_from": "/x", "issuer": src,
               "not_on_or_after": exp, "authn_info": [], "session_index": "s1", "marker": ev["marker"]}
         outs = self.both(lambda c, p: nid_tuple(p.add_information_about_person(copy.deepcopy(si))))
@@ -858,9 +861,9 @@ def gen_c19(seed, tier):
             for a in r.sample(use_attrs, r.randrange(0 if len(use_attrs) > 1 else 1, len(use_attrs) + 1)):
                 ava[a] = ["v%d-%d" % (mk, j) for j in range(r.randrange(1, 3))] + (["shared"] if r.chance(0.3) else [])
             e.update({"s": s, "src": src, "off": r.pick([-3600, -1, 0, 1, 3600, -2, 2, 5, 3600, 600]), "ava": ava,
-                      "marker": "m%d" % mk, "form": r.pick(["int", "int", "struct"]),
+                      "marker": "m%d" % mk, "form": r.pick(["int", "int", "int", "struct", "struct", "zero"]),
                       "with_name_id": r.chance(0.5)})
-            if k == "add_person":
+            if k == "add_person" and e["form"] == "struct":
                 e["form"] = "int"
         elif k in ("get", "active", "reset", "entityid"):
             e.update({"s": s, "src": src, "check": r.chance(0.8), "via_pop": r.chance(0.3)})
